@@ -169,6 +169,8 @@ def parse_output(out):
             r.error = 'assumption'
         else:
             r.error = 'machinery'
+    if 'StackOverflowError' in out or 'OutOfMemoryError' in out or 'java.lang.' in out:
+        r.error = 'machinery'
     if r.error in ('deadlock', 'invariant', 'action_property', 'temporal'):
         # with -continue several error traces are printed; keep them all, .trace is the first
         chunks = re.split(r'^Error: (?=Deadlock reached|Invariant \w+ is violated|Action property)', out, flags=re.M)[1:]
